@@ -64,8 +64,8 @@ func init() { childCommands["c13spell"] = c13SpellChild }
 
 // c13SpellTpl: T is the spelling of D with <N> = base name of D, <S> = name
 // of its sub-directory, <L> = name of the link; Cwd is where the host stands:
-// D, S (= D/S), P (= p0), B (= case base), L (= p3/<L> -> D), LP (= p3/<L> -> p0),
-// LD (= p3/<L>/<N>), LS (= p3/<L>/<N>/<S>), R (= '/' of a chroot at the base).
+// D, S (= D/S), P (= p0), B (= case base), L (= p9/<L> -> D), LP (= p9/<L> -> p0),
+// LD (= p9/<L>/<N>), LS (= p9/<L>/<N>/<S>), R (= '/' of a chroot at the base).
 type c13SpellTpl struct{ T, Cwd string }
 
 var c13SpellTpls = map[string][]c13SpellTpl{
@@ -77,7 +77,7 @@ var c13SpellTpls = map[string][]c13SpellTpl{
 		{"p0/<N>", "B"}, {"./p0/<N>/", "B"}, {"../<N>", "D"}, {"../<N>/", "D"}},
 	"spell:absolute": {{"{B}/p0/<N>/", "B"}, {"{B}/p0/<N>//", "B"}, {"{B}/p0/./<N>", "B"}, {"{B}/p0/../p0/<N>", "B"}, {"{B}//p0/<N>", "B"},
 		{"{B}/p0/<N>/./", "B"}},
-	"spell:via-symlinked-parent": {{"{B}/p3/<L>/<N>", "B"}, {"{B}/p3/<L>/<N>/", "B"}, {"<N>", "LP"}, {"./<N>/", "LP"}, {".", "LD"}, {"./", "LD"},
+	"spell:via-symlinked-parent": {{"{B}/p9/<L>/<N>", "B"}, {"{B}/p9/<L>/<N>/", "B"}, {"<N>", "LP"}, {"./<N>/", "LP"}, {".", "LD"}, {"./", "LD"},
 		{"..", "LS"}},
 	"spell:symlinked-cwd": {{".", "L"}, {"./", "L"}, {"./.", "L"}},
 	"spell:fs-root":       {{"/", "R"}, {".", "R"}, {"//", "R"}, {"/.", "R"}},
@@ -129,22 +129,22 @@ func c13SpellGen(id int, class string, k int, r *vk.Rng) c13Case {
 		}
 		switch class {
 		case "spell:symlinked-cwd":
-			p3 := b.parent(3)
-			link = b.nameNot(p3, n)
+			p9 := b.parent(9)
+			link = b.nameNot(p9, n)
 			seenName = link
 			tgt := "{B}/" + d
 			if r.Bool() {
 				tgt = "../" + d
 			}
-			b.add(c13Node{Kind: "symlink", Rel: p3 + "/" + link, Target: tgt})
+			b.add(c13Node{Kind: "symlink", Rel: p9 + "/" + link, Target: tgt})
 		case "spell:via-symlinked-parent":
-			p3 := b.parent(3)
-			link = b.name(p3)
+			p9 := b.parent(9)
+			link = b.name(p9)
 			tgt := "{B}/p0"
 			if r.Bool() {
 				tgt = "../p0"
 			}
-			b.add(c13Node{Kind: "symlink", Rel: p3 + "/" + link, Target: tgt})
+			b.add(c13Node{Kind: "symlink", Rel: p9 + "/" + link, Target: tgt})
 		}
 		if nested {
 			c.Paths = append(c.Paths, ".")
@@ -160,11 +160,11 @@ func c13SpellGen(id int, class string, k int, r *vk.Rng) c13Case {
 	case "B", "R":
 		c.Cwd = "."
 	case "L", "LP":
-		c.Cwd = "p3/" + link
+		c.Cwd = "p9/" + link
 	case "LD":
-		c.Cwd = "p3/" + link + "/" + n
+		c.Cwd = "p9/" + link + "/" + n
 	case "LS":
-		c.Cwd = "p3/" + link + "/" + n + "/" + sName
+		c.Cwd = "p9/" + link + "/" + n + "/" + sName
 	}
 	spelled := strings.NewReplacer("<N>", n, "<S>", sName, "<L>", link).Replace(t.T)
 
